@@ -3,7 +3,8 @@ structural tree specification (specs/die.py)."""
 from pyvc.contracts import contract
 from pyvc.shapes import *
 from specs.die import (has_top, die_at, child_off, is_null_at, term_off, subtree_end, nchildren_def, size_at, has_children_at,
-                       attr_has, attr_form, attr_value, attr_raw, siblings_wellformed)
+                       attr_has, attr_form, attr_value, attr_raw, siblings_wellformed,
+                       unit_stream, unit_die_offset)
 from specs.lists import has_base, base_of
 from contracts._dwarf_shapes import *
 
@@ -21,7 +22,7 @@ class die_init:
     mode = 'assume'
     # the second precondition is _parse_DIE's: an entry is constructed only when the unit's root entry is cached or is
     # the entry itself (otherwise resolving an index form would parse the root from the same stream mid-entry)
-    requires = ["stream is cu.dwarfinfo.debug_info_sec.stream", "has_top(cu) or offset == cu.cu_die_offset"]
+    requires = ["stream is unit_stream(cu)", "has_top(cu) or offset == unit_die_offset(cu)"]
     sets = dict(cu="cu", stream="stream", offset="offset", _terminator="None", _parent="None")
     sets_shape = dict(size=Nat, abbrev_code=Nat, tag=SymOpt(CodeT(32)), has_children=SymOpt(Bool), attributes=DictOf(AttrT))
     ensures = ["die_at(self, cu, offset)"]
